@@ -163,8 +163,21 @@ Lemma std_opts_no_plus_flags s d f u sa a :
   has o REFERENCE_PICTURE_SELECTION = false /\ has o REFERENCE_PICTURE_RESAMPLING = false.
 Proof. destruct s, d, f, u, sa, a; cbv; split; reflexivity. Qed.
 
+(* no reference-picture resampling is signalled: the previous header, if it transmitted a format, transmitted this one *)
 Definition prev_compatible (prev : option picture) (fmt : option source_format) : Prop :=
-  match prev with None => True | Some p => format_eqb (format p) fmt = true end.
+  match prev with
+  | None => True
+  | Some p => match format p, fmt with Some _, Some _ => format_eqb (format p) fmt = true | _, _ => True end
+  end.
+Lemma rprp_not_needed prev fmt : prev_compatible prev fmt ->
+  (match prev with
+   | Some p => match format p, fmt with Some _, Some _ => negb (format_eqb (format p) fmt) | _, _ => false end
+   | None => false
+   end) = false.
+Proof.
+  destruct prev as [p|]; [|reflexivity]. unfold prev_compatible.
+  destruct (format p) as [a|]; destruct fmt as [b|]; intros H; try reflexivity. rewrite H. reflexivity.
+Qed.
 
 Theorem std_roundtrip h prev scal rest pos :
   wf_std h -> prev_compatible prev (Some (std_format (t_srcfmt h))) -> scal = false ->
@@ -189,14 +202,10 @@ Proof.
   cbn [f_custom_format f_custom_clock f_mv_range f_slice_submode f_rps_mode no_followers scalability bind].
   destruct (std_opts_no_plus_flags (t_split h) (t_doccam h) (t_freeze h) (t_umv h) (t_sac h) (t_ap h)) as [N1 N2].
   cbv zeta in N1, N2. rewrite N1, N2. cbn [bind orb].
-  (* RPRP is needed only if the previous picture's format differs *)
-  assert (Hp : (match prev with
-                | Some p => negb (format_eqb (format p)
-                    (Some (if t_srcfmt h =? 1 then SubQcif else if t_srcfmt h =? 2 then QuarterCif else if t_srcfmt h =? 3 then FullCif
-                           else if t_srcfmt h =? 4 then FourCif else if t_srcfmt h =? 5 then SixteenCif else SfReserved)))
-                | None => false end) = false).
-  { destruct prev as [p|]; [|reflexivity]. cbn in Hprev. unfold std_format in Hprev. rewrite Hprev. reflexivity. }
-  rewrite Hp. cbn [bind].
+  (* RPRP is needed only if the previous header transmitted a different format *)
+  match goal with |- context [if ?X then Err EUnimplemented else _] =>
+    replace X with false by (symmetry; exact (rprp_not_needed _ _ Hprev)) end.
+  cbn [bind].
   rdn.
   (* CPM / PSBI *)
   unfold decode_cpm_and_psbi.
